@@ -231,6 +231,31 @@ func runC16(x *core.Ctx) {
 			}
 		}
 	}
+	defer func() {
+		if x.Expired() {
+			return
+		}
+		// the dense strata (mid-range lengths of every field, pairs of lengths,
+		// special contents in every field under every reason code, list
+		// lengths): every frame of them the specification accepts
+		enumDenseFrames(x, func(c *rawCase) bool {
+			if len(c.Stream) > 70000 {
+				return true
+			}
+			if _, _, n, err := spec.Decode(c.Stream, true); err != nil || n != len(c.Stream) {
+				return true
+			}
+			x.Eval("F8.dense")
+			x.Distinct(core.Hash([]byte{0}, c.Stream))
+			if f := c16Exec(c.Stream, env.KRaw); f != nil {
+				fr := append([]byte{}, c.Stream...)
+				x.Report(f, func() core.Case {
+					return core.Case{Harness: "c16", Frame: hexOf(fr), Params: map[string]any{"reader": 0}}
+				}, func() *core.Finding { return c16Exec(fr, env.KRaw) })
+			}
+			return !x.Expired()
+		})
+	}()
 	// every frame of the valid corpus V (one frame per field shape of every
 	// type, ~2.7k bodies) under every flag nibble that keeps the body valid:
 	// all 16 for the types without flag-dependent layout, DUP and RETAIN
